@@ -2,6 +2,7 @@ import Replicon.Proofs.Client
 import Replicon.Proofs.Fresh
 import Replicon.Proofs.Session
 import Replicon.Proofs.ClientKinds
+import Replicon.Proofs.Jump
 /-
 C01 — Every client converges to the server state under any legal network schedule.
 
@@ -206,5 +207,27 @@ theorem C01_history_same_components (s0 : Server) (hw : s0.world = []) (hc0 : s0
         ∀ k, k ∈ kindsOn (Joint.replay ((Joint.runLog { srv := s0 } (fun _ => []) (ops ++ [.frame ticked ms parts])).2 x.1)) e ↔
           k ∈ presentKinds (Joint.run { srv := s0 } (ops ++ [.frame ticked ms parts])).1.srv ent :=
   Joint.session_components s0 hw hc0 hb ht ops ticked ms parts hl hr hc
+
+/-- `C01_history_same_entities_any_schedule` for histories in which the tick also advances by more
+than one at once (`Joint.OpJ`, `Proofs/Jump.lean`: `ServerTick::increment_by` under the manual tick
+policy): after any such history that ends with a frame in which `send_replication` ran, a receiver
+that gets the session's update messages in order and, anywhere in between, arbitrary mutate
+messages stays well-formed and holds exactly the replicated entities visible to it. -/
+theorem C01_history_same_entities_with_tick_jumps (s0 : Server) (hw : s0.world = []) (hc0 : s0.clients = [])
+    (hb : s0.removalBuf = []) (ht : s0.lastRun < s0.now) (ops : List Joint.OpJ)
+    (hl : Joint.LegalJ { srv := s0 } ops) (ticked : Bool) (ms : Nat) (parts : Nat → List (List Nat))
+    (hr : (Joint.runLogJ { srv := s0 } (fun _ => []) ops).1.srv.running = true)
+    (hc : (preRun (Joint.runLogJ { srv := s0 } (fun _ => []) ops).1.srv ticked ms).tickChanged = true) :
+    ∀ x ∈ (Joint.step (Joint.runLogJ { srv := s0 } (fun _ => []) ops).1 (.frame ticked ms parts)).1.srv.clients,
+      x.2.authorized = true →
+      ∀ arrivals : List Arrival,
+        updatesOf arrivals = Joint.logStep (Joint.runLogJ { srv := s0 } (fun _ => []) ops).1
+          (Joint.runLogJ { srv := s0 } (fun _ => []) ops).2 (.frame ticked ms parts) x.1 →
+        WF (runArrivals {} arrivals) ∧
+        ∀ se, held (runArrivals {} arrivals) se ↔
+          marked (Joint.step (Joint.runLogJ { srv := s0 } (fun _ => []) ops).1 (.frame ticked ms parts)).1.srv.world se ∧
+          Vis.isVisible (Joint.step (Joint.runLogJ { srv := s0 } (fun _ => []) ops).1 (.frame ticked ms parts)).1.srv.white
+            (cell x.2 se) = true :=
+  Joint.session_any_schedule_with_jumps s0 hw hc0 hb ht ops hl ticked ms parts hr hc
 
 end Replicon.C01
